@@ -251,7 +251,17 @@ func (o *objectGoReflect) elemToValue(ev reflect.Value) (Value, reflectValueWrap
 		return o.val.runtime.toValue(ev.Interface(), reflect.Value{}), nil
 	}
 
-	return o.val.runtime.toValue(ev.Interface(), ev), nil
+	ret := o.val.runtime.toValue(ev.Interface(), ev)
+	if ev.CanAddr() {
+		// a value of a named non-compound type (e.g. type Counter int) is wrapped as a reference to the slot too
+		// (so that methods with pointer receivers work), therefore it needs the same copy-on-change tracking
+		if obj, ok := ret.(*Object); ok {
+			if w, ok := obj.self.(*objectGoReflect); ok {
+				return ret, w
+			}
+		}
+	}
+	return ret, nil
 }
 
 func (o *objectGoReflect) _getFieldValue(name string) Value {
